@@ -38,6 +38,10 @@ pub struct RawCase {
     pub declared_beyond_sent: bool,
     /// connect, send, reset at once, `n` times (peer-address path)
     pub reset_storm: usize,
+    /// the client closes its socket right after sending (nothing read): the requests are handled
+    /// afterwards, every write meets a peer that is gone
+    #[serde(default)]
+    pub vanish: bool,
 }
 
 impl RawCase {
@@ -192,6 +196,7 @@ fn run_in_child(case: &RawCase, unix: &tiny_http::Server, unix_path: &str, tcp: 
             let done = &done;
             let sent = &sent;
             let bytes = &bytes;
+            let vanish = case.vanish;
             scope.spawn(move || {
                 alloc::set_harness(true);
                 let deadline = Instant::now() + Duration::from_secs(15);
@@ -218,6 +223,12 @@ fn run_in_child(case: &RawCase, unix: &tiny_http::Server, unix_path: &str, tcp: 
                         Err(_) => break,
                     }
                 }
+                if vanish {
+                    drop(sock);
+                    std::thread::sleep(Duration::from_millis(3));
+                    done.store(true, Ordering::SeqCst);
+                    return false;
+                }
                 sock.shut_w();
                 while !eof && Instant::now() < deadline {
                     match sock.r(&mut buf) {
@@ -234,6 +245,11 @@ fn run_in_child(case: &RawCase, unix: &tiny_http::Server, unix_path: &str, tcp: 
             let t0 = Instant::now();
             loop {
                 let d = done.load(Ordering::SeqCst);
+                if case.vanish && !d {
+                    // nothing is handled before the client is gone
+                    std::thread::sleep(Duration::from_millis(1));
+                    continue;
+                }
                 let got = if d { server.try_recv() } else { server.recv_timeout(Duration::from_millis(2)) };
                 match got {
                     Ok(Some(mut rq)) => {
@@ -429,7 +445,7 @@ pub fn c14_test(cp: &mut ChildProc, case: &RawCase) -> Verdict {
         return fail(format!("C14/{}/server-stopped-serving", case.kind), "a fresh connection after the case got no answer".to_string());
     }
     let sent_total = case.bytes().len();
-    let nontrivial = case.declared_beyond_sent || sent_total >= 64 * 1024 || case.reset_storm > 0;
+    let nontrivial = case.declared_beyond_sent || sent_total >= 64 * 1024 || case.reset_storm > 0 || case.vanish;
     let mut g = if nontrivial { Good::nontrivial() } else { Good::trivial() };
     g = g.class(format!("kind:{}", case.kind)).class_if(case.tcp, "tcp").class_if(res.delivered > 0, "delivered").class(format!("handler:{:?}", case.handler));
     Verdict::Pass(g)
@@ -454,7 +470,7 @@ pub fn c14_strategy(thorough: bool) -> BoxedStrategy<RawCase> {
         if pipelined {
             pieces.insert(0, lit("GET /first HTTP/1.1\r\nHost: h\r\n\r\n"));
         }
-        RawCase { kind: "declared-content-length".into(), pieces, handler, tcp: tcp && false, declared_beyond_sent: true, reset_storm: 0 }
+        RawCase { kind: "declared-content-length".into(), pieces, handler, tcp: tcp && false, declared_beyond_sent: true, reset_storm: 0, vanish: false }
     });
     let chunk = (1usize..40, proptest::sample::select(vec!["F", "f", "1", "7", "0", "A"]), 0usize..100, handler_strategy(), proptest::bool::weighted(0.3)).prop_map(|(digits, d, sent, handler, ext)| {
         let mut size = d.repeat(digits);
@@ -462,7 +478,7 @@ pub fn c14_strategy(thorough: bool) -> BoxedStrategy<RawCase> {
             size.push_str(";x=y");
         }
         let pieces = vec![lit("POST /c HTTP/1.1\r\nHost: h\r\nTransfer-Encoding: chunked\r\n\r\n"), lit(&size), lit("\r\n"), Piece::Repeat(b"y".to_vec(), sent)];
-        RawCase { kind: "declared-chunk-size".into(), pieces, handler, tcp: false, declared_beyond_sent: true, reset_storm: 0 }
+        RawCase { kind: "declared-chunk-size".into(), pieces, handler, tcp: false, declared_beyond_sent: true, reset_storm: 0, vanish: false }
     });
     let many_headers = (prop_oneof![Just(1usize), Just(100usize), Just(5000usize), Just(20000usize), 1usize..20000], handler_strategy(), proptest::sample::select(vec!["a:b\r\n", "X-Header-Name: some value here\r\n", "Cookie: a=b; c=d\r\n", "x:\r\n"])).prop_map(|(n, handler, h)| RawCase {
         kind: "many-headers".into(),
@@ -471,6 +487,7 @@ pub fn c14_strategy(thorough: bool) -> BoxedStrategy<RawCase> {
         tcp: false,
         declared_beyond_sent: false,
         reset_storm: 0,
+        vanish: false,
     });
     let long_line = (prop_oneof![Just(1usize), Just(1023usize), Just(1024usize), Just(1025usize), Just(65536usize), Just(big), 1usize..big], 0u8..4, handler_strategy(), proptest::bool::weighted(0.5)).prop_map(|(n, place, handler, terminated)| {
         let pieces = match place {
@@ -479,11 +496,11 @@ pub fn c14_strategy(thorough: bool) -> BoxedStrategy<RawCase> {
             2 => vec![lit("GET /l HTTP/1.1\r\n"), Piece::Repeat(b"N".to_vec(), n), lit(if terminated { ": v\r\n\r\n" } else { "" })],
             _ => vec![Piece::Repeat(b"M".to_vec(), n), lit(if terminated { " / HTTP/1.1\r\n\r\n" } else { "" })],
         };
-        RawCase { kind: "long-line".into(), pieces, handler, tcp: false, declared_beyond_sent: false, reset_storm: 0 }
+        RawCase { kind: "long-line".into(), pieces, handler, tcp: false, declared_beyond_sent: false, reset_storm: 0, vanish: false }
     });
     let te = (proptest::collection::vec((proptest::sample::select(vec!["chunked", "identity", "gzip", "trailers", "x"]), proptest::sample::select(vec!["", ";q=NaN", ";q=inf", ";q=-inf", ";q=1e39", ";q=-0", ";q=0.5", ";q=nan", ";q=1e-40", ";q=+1", ";", ";a", "; ", ";;", ";=", ";q", ";q=", "; q=0.5", ";Q=0.5", ";x;q=0.1", ";\t"])), 1..64), handler_strategy(), any::<bool>()).prop_map(|(els, handler, tcp)| {
         let v = els.iter().map(|(c, q)| format!("{}{}", c, q)).collect::<Vec<_>>().join(", ");
-        RawCase { kind: "te-list".into(), pieces: vec![lit(&format!("GET /te HTTP/1.1\r\nHost: h\r\nTE: {}\r\n\r\n", v))], handler, tcp, declared_beyond_sent: false, reset_storm: 0 }
+        RawCase { kind: "te-list".into(), pieces: vec![lit(&format!("GET /te HTTP/1.1\r\nHost: h\r\nTE: {}\r\n\r\n", v))], handler, tcp, declared_beyond_sent: false, reset_storm: 0, vanish: false }
     });
     let mutated = (proptest::sample::select(vec![
         "GET /m HTTP/1.1\r\nHost: h\r\nAccept: */*\r\n\r\n",
@@ -515,9 +532,9 @@ pub fn c14_strategy(thorough: bool) -> BoxedStrategy<RawCase> {
                 let k = t.index(b.len() + 1);
                 b.truncate(k);
             }
-            RawCase { kind: "byte-mutation".into(), pieces: vec![Piece::Lit(b)], handler, tcp, declared_beyond_sent: false, reset_storm: 0 }
+            RawCase { kind: "byte-mutation".into(), pieces: vec![Piece::Lit(b)], handler, tcp, declared_beyond_sent: false, reset_storm: 0, vanish: false }
         });
-    let storm = (1usize..6, proptest::sample::select(vec!["GET /s HTTP/1.1\r\nHost: h\r\n\r\n", "", "POST /s HTTP/1.1\r\nContent-Length: 5\r\n\r\nab"])).prop_map(|(n, req)| RawCase { kind: "reset-storm".into(), pieces: vec![lit(req)], handler: Handler::RespondNoRead, tcp: true, declared_beyond_sent: false, reset_storm: n });
+    let storm = (1usize..6, proptest::sample::select(vec!["GET /s HTTP/1.1\r\nHost: h\r\n\r\n", "", "POST /s HTTP/1.1\r\nContent-Length: 5\r\n\r\nab"])).prop_map(|(n, req)| RawCase { kind: "reset-storm".into(), pieces: vec![lit(req)], handler: Handler::RespondNoRead, tcp: true, declared_beyond_sent: false, reset_storm: n, vanish: false });
     // the same request many times on one connection (deep pipelines; also of rejected requests)
     let repeated = (
         proptest::sample::select(vec![
@@ -533,7 +550,7 @@ pub fn c14_strategy(thorough: bool) -> BoxedStrategy<RawCase> {
         handler_strategy(),
         any::<bool>(),
     )
-        .prop_map(|((req, max), div, handler, tcp)| RawCase { kind: "repeated-request".into(), pieces: vec![Piece::Repeat(req.as_bytes().to_vec(), (max / div).max(1))], handler, tcp, declared_beyond_sent: false, reset_storm: 0 });
+        .prop_map(|((req, max), div, handler, tcp)| RawCase { kind: "repeated-request".into(), pieces: vec![Piece::Repeat(req.as_bytes().to_vec(), (max / div).max(1))], handler, tcp, declared_beyond_sent: false, reset_storm: 0, vanish: false });
     let unusual = (proptest::sample::select(vec![
         "HEAD /u HTTP/1.0\r\nHost: h\r\n\r\n",
         "HEAD /u HTTP/1.1\r\nHost: h\r\nTE: identity\r\n\r\n",
@@ -542,6 +559,15 @@ pub fn c14_strategy(thorough: bool) -> BoxedStrategy<RawCase> {
         "GET /u HTTP/1.0\r\nTE: chunked\r\n\r\n",
         "OPTIONS * HTTP/1.1\r\nHost: h\r\nTE: trailers, chunked;q=0.0\r\n\r\n",
         "HEAD /u HTTP/1.1\r\nHost: h\r\nConnection: close\r\nTE: chunked\r\n\r\n",
-    ]), handler_strategy(), any::<bool>()).prop_map(|(req, handler, tcp)| RawCase { kind: "unusual-valid-head".into(), pieces: vec![lit(req)], handler, tcp, declared_beyond_sent: false, reset_storm: 0 });
-    prop_oneof![4 => declared, 3 => chunk, 2 => many_headers, 2 => long_line, 2 => te, 5 => mutated, 1 => storm, 2 => repeated, 3 => unusual].boxed()
+    ]), handler_strategy(), any::<bool>()).prop_map(|(req, handler, tcp)| RawCase { kind: "unusual-valid-head".into(), pieces: vec![lit(req)], handler, tcp, declared_beyond_sent: false, reset_storm: 0, vanish: false });
+    // pipelines whose client is gone before the first of them is handled
+    let vanishing = (proptest::sample::select(vec![
+        "GET /first HTTP/1.1\r\nHost: h\r\n\r\nPOST /m HTTP/1.1\r\nHost: h\r\nExpect: 100-continue\r\nContent-Length: 3\r\n\r\nabc",
+        "GET /first HTTP/1.1\r\nHost: h\r\n\r\nGET /second HTTP/1.1\r\nHost: h\r\n\r\nPOST /m HTTP/1.1\r\nHost: h\r\nExpect: 100-continue\r\nTransfer-Encoding: chunked\r\n\r\n3\r\nabc\r\n0\r\n\r\n",
+        "GET /a HTTP/1.1\r\nHost: h\r\n\r\nGET /b HTTP/1.1\r\nHost: h\r\n\r\nGET /c HTTP/1.1\r\nHost: h\r\n\r\nGET /d HTTP/1.1\r\nHost: h\r\n\r\n",
+        "POST /u HTTP/1.1\r\nHost: h\r\nContent-Length: 2000\r\n\r\n",
+        "GET /first HTTP/1.1\r\nHost: h\r\n\r\nGET /ws HTTP/1.1\r\nHost: h\r\nConnection: upgrade\r\nUpgrade: websocket\r\n\r\n",
+        "GET /first HTTP/1.0\r\nConnection: keep-alive\r\n\r\nHEAD /second HTTP/1.1\r\nHost: h\r\nTE: chunked\r\n\r\nGET /v HTTP/2.0\r\n\r\nGET /bad\r\n\r\n",
+    ]), handler_strategy(), any::<bool>()).prop_map(|(req, handler, tcp)| RawCase { kind: "vanishing-client".into(), pieces: vec![lit(req)], handler, tcp, declared_beyond_sent: false, reset_storm: 0, vanish: true });
+    prop_oneof![4 => declared, 3 => chunk, 2 => many_headers, 2 => long_line, 2 => te, 5 => mutated, 1 => storm, 2 => repeated, 3 => unusual, 3 => vanishing].boxed()
 }
